@@ -171,7 +171,9 @@ func (s *Server) VerifHandlerIDs() []uint16 {
 func (s *Server) VerifInitHandlers() { s.initHandlers() }
 
 // VerifPublishingIntervalLimits returns the bounds of the revised publishing interval in milliseconds.
-func VerifPublishingIntervalLimits() (float64, float64) { return publishingIntervalMin, publishingIntervalMax }
+func VerifPublishingIntervalLimits() (float64, float64) {
+	return publishingIntervalMin, publishingIntervalMax
+}
 
 // VerifRevisePublishingInterval exposes revisePublishingInterval.
 func VerifRevisePublishingInterval(ms float64) float64 { return revisePublishingInterval(ms) }
